@@ -135,6 +135,53 @@ def random_prms(rng, rows):
     return p
 
 
+def numpy_typed(prms, rng):
+    """The same parameter values as NumPy scalars (values read from arrays / data frames are of these types):
+    np.int64 / np.int32 for integers, np.float64 / np.float32 (only when exactly representable) for floats."""
+    def conv(v):
+        if isinstance(v, bool) or v is None or isinstance(v, str):
+            return v
+        if isinstance(v, int):
+            return rng.choice([np.int64, np.int32, np.int16 if abs(v) < 30000 else np.int64])(v)
+        if isinstance(v, float):
+            f32 = np.float32(v)
+            return f32 if (rng.random() < 0.4 and float(f32) == v) else np.float64(v)
+        if isinstance(v, dict):
+            return {k: conv(x) for k, x in v.items()}
+        if isinstance(v, list):
+            return [conv(x) if not isinstance(x, str) else x for x in v]
+        return v
+    return {k: (conv(v) if rng.random() < 0.7 else v) for k, v in prms.items()}
+
+
+def _nested_update(ref, new):
+    for k, v in new.items():
+        if isinstance(v, dict) and isinstance(ref.get(k), dict):
+            _nested_update(ref[k], v)
+        else:
+            ref[k] = v
+
+
+POISON = {'MSA': 1, 'MSA_HIT_BUFFER': 0, 'MAX_HITS_OKTA0': 10 ** 6, 'MAX_HOLES_OKTA8': 10 ** 6, 'BASE_LVL_HEIGHT_PERC': 100,
+          'BASE_LVL_LOOKBACK_PERC': 1, 'MIN_SEP_VALS': [0, 0], 'MIN_SEP_LIMS': [1], 'EXCLUDE_FOR_BASE_HEIGHT_CALC': ['poison']}
+
+
+def poison_global(g):
+    """In-place edits of the dictionary that was the global at construction time (and of its nested dictionaries)."""
+    for k, v in POISON.items():
+        if k in g:
+            g[k] = v
+    for sec, leaf, val in (('SLICING_PRMS', 'distance_threshold', 1e-6), ('GROUPING_PRMS', 'height_pad_perc', 10 ** 4),
+                           ('LAYERING_PRMS', 'min_okta_to_split', 9), ('LOWESS', 'frac', 1.0)):
+        if isinstance(g.get(sec), dict):
+            g[sec][leaf] = val
+    for sec in ('SLICING_PRMS', 'GROUPING_PRMS'):
+        if isinstance(g.get(sec), dict) and isinstance(g[sec].get('height_scale_kwargs'), dict):
+            g[sec]['height_scale_kwargs']['min_range'] = 10 ** 7
+    if isinstance(g.get('LAYERING_PRMS'), dict) and isinstance(g['LAYERING_PRMS'].get('gmm_kwargs'), dict):
+        g['LAYERING_PRMS']['gmm_kwargs']['delta_mul_gain'] = 0.0
+
+
 # --------------------------------------------------------------------------------------------
 # running the real code
 # --------------------------------------------------------------------------------------------
@@ -207,6 +254,21 @@ def run_scene(rows, prms, index=None, stages=('slices', 'groups', 'layers'), fra
                 import ampycloud
                 obs['stage'] = 'run'
                 chunk = ampycloud.run(df, prms=copy.deepcopy(prms), **(chunk_kwargs or {}))
+            elif route == 'global':
+                # the documented global route: the scene's parameters are set in dynamic.AMPYCLOUD_PRMS, the chunk is
+                # built without per-call parameters, and then *the dictionary that was the global at construction is
+                # edited in place* (every result-relevant leaf set to a value that changes the outcome): the chunk
+                # works with the values it was constructed with
+                from ampycloud import dynamic
+                saved_global = dynamic.AMPYCLOUD_PRMS
+                g = copy.deepcopy(dynamic.get_default_prms())
+                _nested_update(g, copy.deepcopy(prms))
+                dynamic.AMPYCLOUD_PRMS = g
+                try:
+                    chunk = CeiloChunk(df, **(chunk_kwargs or {}))
+                    poison_global(g)
+                finally:
+                    dynamic.AMPYCLOUD_PRMS = saved_global
             else:
                 chunk = CeiloChunk(df, prms=copy.deepcopy(prms), **(chunk_kwargs or {}))
             obs['data'] = data_rows(chunk.data)
